@@ -12,6 +12,7 @@ import (
 	"strconv"
 	"strings"
 	"sync"
+	"sync/atomic"
 	"time"
 
 	"github.com/IrineSistiana/mosproxy/internal/mlog"
@@ -76,10 +77,38 @@ func c18Until(max time.Duration, cond func() bool) bool {
 	}
 }
 
+// Every bounded wait of the C18 components is for something that must happen on a correct implementation.
+// A wait that runs into its time-out therefore means a violation (it will happen again) or a machine that
+// was too slow this time: the case is run once more before its outcome is reported (at most c18RetryBudget
+// cases per process, so that a broken tree is not tested three times as slowly).
+var (
+	c18Timeouts    atomic.Int64
+	c18RetriesLeft atomic.Int64
+)
+
+func init() { c18RetriesLeft.Store(8) }
+
+func c18Wait(cond func() bool) bool {
+	ok := c18Until(c18Settle, cond)
+	if !ok {
+		c18Timeouts.Add(1)
+	}
+	return ok
+}
+
+func c18Retry(f func() string) string {
+	before := c18Timeouts.Load()
+	out := f()
+	if c18Timeouts.Load() != before && c18RetriesLeft.Add(-1) >= 0 {
+		out = f()
+	}
+	return out
+}
+
 // c18Leak: sockets above the baseline once things have settled.
 func c18Leak(base int) int {
 	n := 0
-	c18Until(c18Settle, func() bool { n = c18Sockets() - base; return n <= 0 })
+	c18Wait(func() bool { n = c18Sockets() - base; return n <= 0 })
 	if n < 0 {
 		n = 0
 	}
@@ -119,7 +148,7 @@ func c18FreePort(udp bool) int {
 // c18CanBind reports whether the address can be bound again (with retries for asynchronous closes).
 func c18CanBind(udp bool, port int) bool {
 	addr := "127.0.0.1:" + strconv.Itoa(port)
-	return c18Until(c18Settle, func() bool {
+	return c18Wait(func() bool {
 		if udp {
 			c, err := net.ListenPacket("udp", addr)
 			if err != nil {
@@ -199,7 +228,7 @@ func c18UpstreamCrashes(kind string) bool {
 	defer cancel()
 	cmd := exec.CommandContext(ctx, os.Args[0], "replay", "closeproto")
 	cmd.Env = append(os.Environ(), "C18_CANARY=1")
-	cmd.Stdin = strings.NewReader("k=" + c18UpModelKind[kind] + " auto=1 up=" + kind + " ops=s1,r1,C\n")
+	cmd.Stdin = strings.NewReader("k=" + c18UpModelKind[kind] + " auto=1 up=" + kind + " ops=s1,r1,s2,C,s3\n")
 	err := cmd.Run()
 	crashed := err != nil && ctx.Err() == nil
 	if crashed {
